@@ -1103,6 +1103,10 @@ class ConfigInformation:
         """Sets a dependency on the job"""
         assert not isinstance(config, Task), "Cannot set a dependency on a task"
         config.__xpm__.task = self.pyobject
+        # The producing task is part of the identifier: forget the identifiers
+        # computed (and cached, if the configuration was sealed) before
+        config.__xpm__._raw_identifier = None
+        config.__xpm__._full_identifier = None
         return config
 
     # --- Serialization
